@@ -531,5 +531,6 @@ func extractC17() *lean {
 	extractC17b(l)
 	extractC17c(l)
 	extractC17d(l)
+	extractC17e(l)
 	return l
 }
